@@ -60,7 +60,7 @@ Definition TLInv (seed : G) (th : thread) : Prop :=
   seen th = stream (length (seen th)) seed /\
   match ph th with Idle => True | Loaded v => v = own th | _ => False end.
 
-Lemma tl_mstep_inv seed m t m' :
+Lemma tl_mstep_inv (seed : G) (m : machine) t m' :
   (forall i th, nth_error (threads m) i = Some th -> TLInv seed th) ->
   mstep ThreadLocal m t = Some m' ->
   (forall i th, nth_error (threads m') i = Some th -> TLInv seed th).
@@ -92,7 +92,7 @@ Proof.
   destruct H as (k & <- & _). cbn. auto.
 Qed.
 
-Lemma tl_run_inv seed sched : forall m,
+Lemma tl_run_inv (seed : G) sched : forall m : machine,
   (forall i th, nth_error (threads m) i = Some th -> TLInv seed th) ->
   (forall i th, nth_error (threads (run ThreadLocal m sched)) i = Some th -> TLInv seed th).
 Proof.
@@ -102,7 +102,7 @@ Proof.
   eapply tl_mstep_inv; eauto.
 Qed.
 
-Lemma accesses_from_tl k ths i a :
+Lemma accesses_from_tl k (ths : list thread) i a :
   In (i, a) (accesses_from ThreadLocal k ths) -> a_loc a = LOwn i.
 Proof.
   revert k; induction ths as [|th r IH]; intros k H; [destruct H|].
@@ -175,7 +175,7 @@ Proof.
   destruct (Nat.eqb_spec t i); [contradiction|]. cbn. now rewrite app_nil_r.
 Qed.
 
-Lemma rmw_mstep_inv seed m t m' : RMWInv seed m -> mstep AtomicRMW m t = Some m' -> RMWInv seed m'.
+Lemma rmw_mstep_inv (seed : G) (m : machine) t m' : RMWInv seed m -> mstep AtomicRMW m t = Some m' -> RMWInv seed m'.
 Proof.
   intros (Hg & Hl & Hth) Hs. unfold Model.mstep in Hs.
   destruct (nth_error (threads m) t) as [th|] eqn:Et; [|discriminate].
@@ -196,14 +196,14 @@ Proof.
     + rewrite nth_error_upd_neq in H by (exact Hlt || exact Hne). exact (proj2 (Hth _ _ H)).
 Qed.
 
-Lemma rmw_run_inv seed sched : forall m, RMWInv seed m -> RMWInv seed (run AtomicRMW m sched).
+Lemma rmw_run_inv (seed : G) sched : forall m : machine, RMWInv seed m -> RMWInv seed (run AtomicRMW m sched).
 Proof.
   induction sched as [|t sched IH]; intros m H; [exact H|].
   cbn [Model.run fold_left]. apply IH. unfold Model.sstep.
   destruct (mstep AtomicRMW m t) as [m'|] eqn:E; [|exact H]. eapply rmw_mstep_inv; eauto.
 Qed.
 
-Lemma accesses_from_atomic d k ths i a :
+Lemma accesses_from_atomic d k (ths : list thread) i a :
   d = AtomicRMW \/ d = SplitAtomic ->
   In (i, a) (accesses_from d k ths) -> a_atomic a = true.
 Proof.
@@ -245,6 +245,137 @@ Proof.
     - apply init_threads_nth in H. destruct H as (_ & _ & ->). reflexivity.
     - apply init_threads_nth in H. tauto. }
   exact (proj1 (proj2 H)).
+Qed.
+
+(** ** Locked: a mutex held around load + store *)
+Definition LInv (seed : G) (m : machine) : Prop :=
+  glob m = pow (length (log m)) seed /\
+  map snd (log m) = stream (length (log m)) seed /\
+  (forall t th, nth_error (threads m) t = Some th -> seen th = project t (log m)) /\
+  (forall t th, nth_error (threads m) t = Some th ->
+     match ph th with
+     | Idle => lock m <> Some t
+     | Loaded v => lock m = Some t /\ v = glob m
+     | WantLoad | WantRelease => lock m = Some t
+     end).
+
+Lemma linv_holder (seed : G) (m : machine) t th :
+  LInv seed m -> nth_error (threads m) t = Some th -> ph th <> Idle -> lock m = Some t.
+Proof.
+  intros (_ & _ & _ & Hph) Ht Hne. specialize (Hph t th Ht).
+  destruct (ph th); tauto.
+Qed.
+
+Lemma locked_mstep_inv (seed : G) (m : machine) t m' : LInv seed m -> mstep Locked m t = Some m' -> LInv seed m'.
+Proof.
+  intros HI Hs. pose proof HI as (Hg & Hl & Hseen & Hph). unfold Model.mstep in Hs.
+  destruct (nth_error (threads m) t) as [th|] eqn:Et; [|discriminate].
+  pose proof (nth_error_lt _ _ _ Et) as Hlt.
+  pose proof (Hph t th Et) as Hpt.
+  assert (Hothers : forall i th', i <> t -> nth_error (threads m) i = Some th' -> ph th <> Idle -> ph th' = Idle).
+  { intros i th' Hne Hi Hnid. destruct (ph th') eqn:E; [reflexivity| | |];
+      (assert (Hli : lock m = Some i) by (apply (linv_holder seed m i th' HI Hi); rewrite E; discriminate));
+      (assert (Hlt' : lock m = Some t) by (apply (linv_holder seed m t th HI Et Hnid)));
+      congruence. }
+  destruct (ph th) as [|v| |] eqn:Eph.
+  - (* acquire *)
+    destruct (todo th) as [|k]; [discriminate|]. destruct (lock m) eqn:El; [discriminate|]. injection Hs as <-.
+    unfold LInv; cbn [glob log threads lock]. repeat split; try assumption.
+    + intros i th' Hi. destruct (Nat.eq_dec t i) as [->|Hne].
+      * rewrite nth_error_upd_eq in Hi by exact Hlt. injection Hi as <-. cbn [seen]. eauto.
+      * rewrite nth_error_upd_neq in Hi by (exact Hlt || exact Hne). eauto.
+    + intros i th' Hi. destruct (Nat.eq_dec t i) as [->|Hne].
+      * rewrite nth_error_upd_eq in Hi by exact Hlt. injection Hi as <-. reflexivity.
+      * rewrite nth_error_upd_neq in Hi by (exact Hlt || exact Hne).
+        pose proof (Hph i th' Hi) as Hpi. rewrite ?El in Hpi.
+        destruct (ph th'); try (destruct Hpi; discriminate); try discriminate. congruence.
+  - (* store *)
+    destruct Hpt as [Hlk ->]. injection Hs as <-.
+    unfold LInv, finish; cbn [glob log threads lock own seen ph todo].
+    rewrite app_length. cbn [length]. rewrite Nat.add_1_r. repeat split.
+    + rewrite Hg. reflexivity.
+    + rewrite map_app, stream_snoc, Hl, <- Hg. reflexivity.
+    + intros i th' Hi. destruct (Nat.eq_dec t i) as [->|Hne].
+      * rewrite nth_error_upd_eq in Hi by exact Hlt. injection Hi as <-. cbn [seen].
+        rewrite project_snoc_same. now rewrite (Hseen _ _ Et).
+      * rewrite nth_error_upd_neq in Hi by (exact Hlt || exact Hne).
+        rewrite project_snoc_other by exact Hne. eauto.
+    + intros i th' Hi. destruct (Nat.eq_dec t i) as [->|Hne].
+      * rewrite nth_error_upd_eq in Hi by exact Hlt. injection Hi as <-. exact Hlk.
+      * rewrite nth_error_upd_neq in Hi by (exact Hlt || exact Hne).
+        assert (E : ph th' = Idle) by (apply (Hothers i th' (not_eq_sym Hne) Hi); rewrite ?Eph; discriminate).
+        rewrite E. pose proof (Hph i th' Hi) as Hpi. rewrite E in Hpi. exact Hpi.
+  - (* load *)
+    injection Hs as <-. unfold LInv, set_thread; cbn [glob log threads lock]. repeat split; try assumption.
+    + intros i th' Hi. destruct (Nat.eq_dec t i) as [->|Hne].
+      * rewrite nth_error_upd_eq in Hi by exact Hlt. injection Hi as <-. cbn [seen]. eauto.
+      * rewrite nth_error_upd_neq in Hi by (exact Hlt || exact Hne). eauto.
+    + intros i th' Hi. destruct (Nat.eq_dec t i) as [->|Hne].
+      * rewrite nth_error_upd_eq in Hi by exact Hlt. injection Hi as <-. cbn [ph]. split; [exact Hpt|reflexivity].
+      * rewrite nth_error_upd_neq in Hi by (exact Hlt || exact Hne). exact (Hph i th' Hi).
+  - (* release *)
+    injection Hs as <-. unfold LInv; cbn [glob log threads lock]. repeat split; try assumption.
+    + intros i th' Hi. destruct (Nat.eq_dec t i) as [->|Hne].
+      * rewrite nth_error_upd_eq in Hi by exact Hlt. injection Hi as <-. cbn [seen]. eauto.
+      * rewrite nth_error_upd_neq in Hi by (exact Hlt || exact Hne). eauto.
+    + intros i th' Hi. destruct (Nat.eq_dec t i) as [->|Hne].
+      * rewrite nth_error_upd_eq in Hi by exact Hlt. injection Hi as <-. cbn [ph]. discriminate.
+      * rewrite nth_error_upd_neq in Hi by (exact Hlt || exact Hne).
+        assert (E : ph th' = Idle) by (apply (Hothers i th' (not_eq_sym Hne) Hi); rewrite ?Eph; discriminate).
+        rewrite E. discriminate.
+Qed.
+
+Lemma locked_run_inv (seed : G) sched : forall m : machine, LInv seed m -> LInv seed (run Locked m sched).
+Proof.
+  induction sched as [|t sched IH]; intros m H; [exact H|].
+  cbn [Model.run fold_left]. apply IH. unfold Model.sstep.
+  destruct (mstep Locked m t) as [m'|] eqn:E; [|exact H]. eapply locked_mstep_inv; eauto.
+Qed.
+
+Lemma accesses_from_locked k (ths : list thread) i a :
+  In (i, a) (accesses_from Locked k ths) ->
+  k <= i /\ exists th, nth_error ths (i - k) = Some th /\ ph th <> Idle.
+Proof.
+  revert k; induction ths as [|th r IH]; intros k H; [destruct H|].
+  cbn [accesses_from] in H.
+  assert (Hrec : In (i, a) (accesses_from Locked (S k) r) ->
+                 k <= i /\ exists th0, nth_error (th :: r) (i - k) = Some th0 /\ ph th0 <> Idle).
+  { intros H'. destruct (IH _ H') as (Hle & th0 & Hn & Hp). split; [lia|]. exists th0. split; [|exact Hp].
+    replace (i - k) with (S (i - S k)) by lia. exact Hn. }
+  destruct (next_access Locked k th) as [b|] eqn:E; [|auto].
+  destruct H as [H|H]; [|auto]. injection H as <- <-. split; [lia|]. exists th.
+  rewrite Nat.sub_diag. split; [reflexivity|].
+  unfold next_access in E. destruct (ph th); try discriminate; discriminate.
+Qed.
+
+Lemma locked_no_race (seed : G) (m : machine) : LInv seed m -> race Locked m = false.
+Proof.
+  intros HI. unfold race. set (acc := accesses_from Locked 0 (threads m)).
+  destruct (existsb _ acc) eqn:E; [|reflexivity]. exfalso.
+  apply existsb_exists in E. destruct E as ([i a] & Hi & E).
+  apply existsb_exists in E. destruct E as ([j b] & Hj & E).
+  cbn [fst snd] in E. apply andb_true_iff in E. destruct E as [Hne _].
+  apply accesses_from_locked in Hi, Hj.
+  destruct Hi as (_ & thi & Hni & Hpi). destruct Hj as (_ & thj & Hnj & Hpj).
+  rewrite Nat.sub_0_r in Hni, Hnj.
+  pose proof (linv_holder seed m i thi HI Hni Hpi) as Li.
+  pose proof (linv_holder seed m j thj HI Hnj Hpj) as Lj.
+  assert (i = j) by congruence. subst. rewrite Nat.eqb_refl in Hne. discriminate.
+Qed.
+
+Lemma init_LInv (seed : G) progs : LInv seed (init seed progs).
+Proof.
+  unfold LInv. cbn [init glob log threads lock length]. repeat split.
+  - intros t th H. apply init_threads_nth in H. destruct H as (_ & _ & ->). reflexivity.
+  - intros t th H. apply init_threads_nth in H. destruct H as (_ & -> & _). discriminate.
+Qed.
+
+Theorem locked_safe : safe Locked.
+Proof.
+  intros seed progs sched m.
+  assert (H : LInv seed m) by (apply locked_run_inv, init_LInv).
+  split; [exact (locked_no_race seed m H)|]. right.
+  destruct H as (_ & Hl & Hseen & _). split; [exact Hl|exact Hseen].
 Qed.
 
 (** ** the racy discipline: a data race is reachable with two threads and one scheduling step *)
